@@ -187,6 +187,14 @@ StepRules(st, self, types, cache) ==
            => /\ ~Has(sends, LAMBDA n : n.msg.kind = "Complete" /\ n.msg.accepted)
               /\ ~(reply.kind = "Complete" /\ reply.accepted)
         THEN {} ELSE {"C01.noCompleteFromDead"})
+  (* the final word and the responder's own completion go together: whenever a responder hands an accepted, un-paused Complete to the network *)
+  (* (or returns it to the transport), its channel is completing - it never tells the initiator "done" while it stays open itself               *)
+  \cup (IF (has /\ ~amInit /\ ~term /\ st.panic = ""
+             /\ ( (\E i \in 1..Len(sends) : (sends[i].ok /\ sends[i].msg.kind = "Complete" /\ sends[i].msg.accepted /\ ~sends[i].msg.paused))
+                  \/ (st.reply.kind = "Complete" /\ st.reply.accepted /\ ~st.reply.paused)          \* returned to the transport (graphsync extension)
+                  \/ (\E i \in 1..Len(st.tr) : (st.tr[i].call = "resume" /\ st.tr[i].msg.kind = "Complete" /\ st.tr[i].msg.accepted /\ ~st.tr[i].msg.paused)) ))
+           => post.status \in {"Completing", "Completed"}
+        THEN {} ELSE {"C01.finalMeansCompleting"})
   (* ---------------- C09 (manager level) ---------------- *)
   \cup (IF (k = "Close" /\ has /\ ~term)
            => /\ st.ret = "nil" /\ Len(TrOf(st.tr, "close")) = 1
